@@ -137,6 +137,24 @@ def run(ctx):
     # empty folders, parents that only receive references, -sf with repeated names, failing runs
     scs.append({"root": "root", "tree": {"e/": None}, "ops": [{"op": "create", "at": "", "h": ["md5"]}, {"op": "create", "at": "e", "h": ["c4"]}]})
     scs.append({"root": "root", "tree": {"c/f.txt": "x", "t.txt": "t"}, "ops": [{"op": "create", "at": "c", "h": ["md5"]}, {"op": "create", "at": "", "h": ["md5"], "sf": ["c/f.txt"]}, {"op": "create", "at": "", "h": ["c4", "md5"], "sf": ["t.txt", "t.txt", "c", "c/f.txt"]}]})
+    # every value the command line accepts for -h (read from the click declaration of the current source, not from a
+    # list of the harness): sealed alone, in a nested tree, flattened
+    try:
+        import ascmhl.commands as _C
+        accepted = sorted({c for p_ in _C.create.params if getattr(p_.type, "choices", None) and "-h" in p_.opts for c in p_.type.choices})
+    except Exception:
+        accepted = []
+    for f_ in accepted:
+        scs.append({"root": "root", "impl_only": True, "tree": {"a.txt": "1", "s/c.txt": "3", "e/": None},
+                    "ops": [{"op": "create", "at": "s", "h": [f_], "now": "2026-03-01 12:00:00"}, {"op": "create", "at": "", "h": [f_], "now": "2026-03-01 12:00:01"},
+                            {"op": "create", "at": "", "h": [f_], "now": "2026-03-01 12:00:02"}, {"op": "flatten", "at": ""}]})
+    # a file recorded by several generations, then renamed (create -dr), then flattened - in the root and in a nested history
+    for k in (1, 2, 3):
+        ops = [{"op": "create", "at": "s", "h": ["md5"], "now": "2026-03-01 12:00:00"}]
+        ops += [{"op": "create", "at": "", "h": [["md5"], ["md5", "sha1"], ["md5"]][g], "now": "2026-03-01 12:00:%02d" % (g + 1)} for g in range(k)]
+        ops += [{"op": "mv", "src": "a.txt", "dst": "b.txt"}, {"op": "mv", "src": "s/c.txt", "dst": "s/d.txt"}, {"op": "create", "at": "", "h": ["md5"], "dr": True, "now": "2026-03-01 12:01:00"},
+                {"op": "create", "at": "", "h": ["md5"], "now": "2026-03-01 12:01:01"}, {"op": "flatten", "at": ""}, {"op": "flatten", "at": "s"}]
+        scs.append({"root": "root", "impl_only": True, "tree": {"a.txt": "1", "keep.txt": "2", "s/c.txt": "3"}, "ops": ops})
     scs.append({"root": "root", "tree": {"a.txt": "1", "b.txt": "2"}, "ops": [{"op": "create", "at": "", "h": ["md5", "c4", "sha1", "xxh64", "xxh3", "xxh128"]}, {"op": "write", "path": "a.txt", "data": "changed"}, {"op": "rm", "path": "b.txt"}, {"op": "create", "at": "", "h": ["c4", "md5"]}, {"op": "flatten", "at": ""}]})
     # rename records (previousPath) in every position the rename scenarios of C17 produce
     from . import C17
